@@ -10,7 +10,7 @@ CONSTANTS NBands,            \* number of bands of a complete source
           QS,                \* set of quality classes per band (index into QW / QP)
           SampleMod, SampleRes,  \* emission subset: checksum % SampleMod = SampleRes
           CfgMod             \* configurations (grid, K pattern, A_V range) with (g+k+r) % CfgMod = 0
-QW == <<1, 4, 16>>           \* weight 1/sigma^2 for flags 1,4
+QW == <<1, 4, 16, 1, 4>>    \* weight 1/sigma^2 for flags 1,4
 QP == <<0, 2, -1, 6, 1>>     \* penalty for flags 2,3 (-1 = certain limit)
 
 \* model grids: sequences of models, each a sequence of quarter-dex log fluxes per band
@@ -103,6 +103,19 @@ Perms == {p \in [Bands(src) -> Bands(src)] : \A a, b \in Bands(src) : a # b => p
 PSeq(s, p) == [j \in 1..Len(s) |-> s[p[j]]]
 PermuteBands ==
   OK => \A p \in Perms : \A m \in 1..NM :
+          LET s2 == [flag |-> PSeq(src.flag, p), Y |-> PSeq(src.Y, p), W |-> PSeq(src.W, p), P |-> PSeq(src.P, p)]
+              a == FitIndep(s2, PSeq(Grid[m], p), PSeq(K, p), ULo, UHi)
+              b == Fit(src, m)
+          IN  a.u = b.u /\ a.v = b.v /\ a.big = b.big /\ a.chi = b.chi /\ a.pred20 = PSeq(b.pred20, p)
+\* the same for a transposition, the rotation and the reversal only (used on 4-band sources, where 24 permutations x every
+\* state is too slow for the quick tier)
+SomePerms == LET n == Len(src.flag) IN
+             IF n < 2 THEN {} ELSE
+             { [j \in 1..n |-> IF j = 1 THEN 2 ELSE IF j = 2 THEN 1 ELSE j],
+               [j \in 1..n |-> (j % n) + 1],
+               [j \in 1..n |-> n + 1 - j] }
+PermuteBandsSome ==
+  OK => \A p \in SomePerms : \A m \in 1..NM :
           LET s2 == [flag |-> PSeq(src.flag, p), Y |-> PSeq(src.Y, p), W |-> PSeq(src.W, p), P |-> PSeq(src.P, p)]
               a == FitIndep(s2, PSeq(Grid[m], p), PSeq(K, p), ULo, UHi)
               b == Fit(src, m)
